@@ -1540,11 +1540,11 @@ CaseX86M_GPB_MulDiv:
         const Imm& imm0 = o0.as<Imm>();
         const Imm& imm1 = o1.as<Imm>();
 
-        if (imm0.value() > 0xFFFFu || imm1.value() > 0xFFFFFFFFu)
+        if (!Support::is_uint_n<16>(imm0.value()) || !(Support::is_uint_n<32>(imm1.value()) || Support::is_int_n<32>(imm1.value())))
           goto InvalidImmediate;
 
         opcode = alt_opcode_of(inst_info);
-        imm_value = int64_t(uint64_t(imm1.value()) | (uint64_t(imm0.value()) << 32));
+        imm_value = int64_t((uint64_t(imm1.value()) & 0xFFFFFFFFu) | (uint64_t(imm0.value()) << 32));
         imm_size = 6;
         goto EmitX86Op;
       }
